@@ -137,6 +137,17 @@ func runC20(c *Ctx) {
 			if !ok {
 				return
 			}
+			// a whole SourceCode struct copied onto a node: the position then comes from another node, not from a parse context
+			if fa, isFA := st.Addr.(*ssa.FieldAddr); isFA && fieldOf(fa) != nil && fieldOf(fa).Embedded() && structName(fa.Type()) == "SourceCode" {
+				typ := structName(fa.X.Type())
+				if stores[typ] == nil {
+					stores[typ] = map[string]posStore{}
+				}
+				for _, fld := range []string{"LineNum", "Column", "Code"} {
+					stores[typ][fld] = posStore{handler: f, ok: false, why: "a whole SourceCode is copied onto a " + typ + " node from another node: its errors would cite that other construct's position"}
+				}
+				return
+			}
 			node, typ, field, ok := sourceCodeField(st.Addr)
 			if !ok {
 				return
